@@ -35,6 +35,11 @@ ASSUMPTIONS = [
     'maxwidth < 5, splitcomp index) are C18\'s subject and are classified `fold-error`, not violations; two folded constants '
     'are equal in the model only if they are the same call on equal arguments',
     'parameter values are None/bool/int/Decimal/str/date',
+    'registry histories (fix-G): each history runs in a fresh Python process that imports only `beanquery`; statements use `FROM #` '
+    '(the NullTable of a bare Connection()); the oracle is a simulated registry in the harness: a call f(T..) is accepted exactly when '
+    'an overload whose signature is in the product of the operand types\' MROs (bool < int; object never a base of a strict type) was '
+    'registered before that statement, the first such signature in product order and the first registration of it winning; the '
+    'harness-registered overloads return a constant tag and are marked __verif_harness__',
     'the registries, type table and table schemas are those of Model/RegistrySnapshot.v (kernel-checked equal to the live ones on every run)',
     'end-to-end stream: the executor model (Eval.v/Exec.v/Order.v/Pivot.v, validated by C01-C03/C15) is the meaning of a lowered '
     'query; strings in data and patterns contain no regular-expression metacharacters (Eval.v models ~ as case-insensitive '
@@ -676,6 +681,17 @@ def mutants():
     add('pivot-unknown-name', 'SELECT a AS c, b, count(*) FROM #t GROUP BY 1, 2 PIVOT BY a, b')
     add('having-not-aggregate', 'SELECT a, count(*) FROM #t GROUP BY a HAVING a > 1')
     add('having-not-aggregate', 'SELECT a, count(*) FROM #t GROUP BY a HAVING TRUE')
+    # fix-G: a non-aggregate HAVING that repeats an expression the statement already evaluates
+    add('having-copy-of-target', 'SELECT f, count(*) FROM #t GROUP BY f HAVING f')
+    add('having-copy-of-target', 'SELECT b, a > 1 AS big, count(*) FROM #t GROUP BY b, big HAVING a > 1')
+    add('having-copy-of-positional-key', 'SELECT f, sum(a) FROM #t GROUP BY 1 HAVING f')
+    add('having-copy-of-hidden-key', 'SELECT count(*) FROM #t GROUP BY b, length(b) > 2 HAVING length(b) > 2')
+    add('having-copy-of-hidden-key', 'SELECT max(x) FROM #t GROUP BY a HAVING a')
+    add('having-over-key', 'SELECT a, count(*) FROM #t GROUP BY a HAVING a = a')
+    add('having-over-key', 'SELECT f, count(*) FROM #t GROUP BY f HAVING NOT f')
+    add('having-copy-of-order-key', 'SELECT a, count(*) FROM #t GROUP BY a, f HAVING f ORDER BY f')
+    add('having-copy-of-aggregate-ok', 'SELECT b, sum(a) > 0 AS p FROM #t GROUP BY b HAVING sum(a) > 0', expect='accept')
+    add('having-copy-of-aggregate-ok', 'SELECT b, count(*) FROM #t GROUP BY b HAVING count(*)', expect='accept')
     add('pivot-same-column', 'SELECT a, b, count(*) FROM #t GROUP BY 1, 2 PIVOT BY 1, 1')
     add('pivot-same-column', 'SELECT a, b, count(*) FROM #t GROUP BY 1, 2 PIVOT BY a, 1')
     add('pivot-same-column', 'SELECT a, b, count(*) FROM #t GROUP BY 1, 2 PIVOT BY b, b')
@@ -1555,6 +1571,365 @@ def uncovered_order_mutants(g, rng, n):
     return out
 
 
+def having_copy_mutants(g, rng, n):
+    """fix-G.  Random valid GROUP BY statements whose HAVING is replaced by a NON-aggregate expression the statement already
+    evaluates: a copy of a selected non-aggregate target, of a grouping key (spelled out / referenced by position / by
+    name / hidden), a bool-valued expression over such a copy, or such an expression that is first ADDED as a named target
+    and grouping key.  Ill-formed by construction ("HAVING aggregate"): the copied expressions come from the row-mode
+    productions of the generator and contain no aggregate of this statement."""
+    out = []
+    tries = 0
+    while len(out) < n and tries < n * 30:
+        tries += 1
+        g.use_params = None
+        g.params = []
+        st = g.select(rng.choice([1, 2]), tbl=(g.tables()[0] if rng.random() < 0.6 else None))
+        if st['shape'] != 'group' or not st['group']:
+            continue
+        st['pivot'] = None
+        shown = [(i, x, a) for i, (x, a) in enumerate(st['targets']) if not x.agg]
+        cands = []
+        for i, x, a in shown:
+            cands.append(('target', x.text, x.ty))
+        for e in st['group']:
+            if e.isdigit():
+                x = st['targets'][int(e) - 1][0]
+                cands.append(('positional-key', x.text, x.ty))
+            else:
+                named = [x for x, a in st['targets'] if a == e]
+                if named:
+                    cands.append(('named-key', named[0].text, named[0].ty))
+                elif any(c05gen.keytext(x.text) == e for _, x, _ in shown):
+                    cands.append(('shown-key', e, None))
+                else:
+                    cands.append(('hidden-key', e, None))
+        if not cands:
+            continue
+        how, text, ty = rng.choice(cands)
+        r = rng.random()
+        if r < 0.5:
+            having, form = text, 'copy'
+        elif r < 0.75:
+            having = rng.choice([f'({text}) IS NULL', f'({text}) IS NOT NULL', f'NOT ({text}) IS NULL', f'coalesce({text}) IS NULL'])
+            form = 'bool-over'
+        else:
+            # the bool-valued expression itself becomes a target and a grouping key; HAVING repeats it
+            having, form = f'({text}) IS NULL', 'added-as-key'
+            alias = f'hv{len(out)}'
+            st['targets'] = st['targets'] + [(c05gen.X(having, 'bool'), alias)]
+            st['group'] = st['group'] + [rng.choice([alias, str(len(st['targets'])), having])]
+        st['having'] = c05gen.X(having, 'bool')
+        st['limit'] = None
+        out.append(dict(stream='mutant', rule=f'having-copy:{how}:{form}', text=c05gen.render(st), params=None, expect='reject',
+                        having_copy={'of': how, 'form': form}))
+    return out
+
+
+# ------------------------------------------------------------------------------------------------
+# fix-G.  Stream "registry histories": acceptance is a function of the statement and of what is registered NOW, not of
+# what an earlier statement of the process found.  Every history runs in a FRESH Python process (the registries are
+# process-wide and cannot be emptied): statements calling a function are interleaved with registrations (importing
+# beanquery.query_env, attaching a Beancount ledger, query_env.function(..) for brand-new names).  Oracle, from the
+# property text: the call is accepted exactly when an overload for the operand types is registered at that moment
+# (simulated registry, most specific operand type first), and then yields the row the resolved overload computes.
+
+HISTORY_CHILD = r"""
+import sys, os, json, decimal, datetime
+REPO = os.environ.get('VERIF_REPO', '/repo')
+sys.path.insert(0, REPO)
+import beanquery
+assert os.path.realpath(beanquery.__file__).startswith(os.path.realpath(REPO)), beanquery.__file__
+hist = json.load(sys.stdin)
+TYPES = {'int': int, 'str': str, 'bool': bool, 'Decimal': decimal.Decimal, 'date': datetime.date}
+conns = {'c': beanquery.Connection()}
+out = []
+
+def cell(v):
+    if v is None or isinstance(v, (bool, int, str)):
+        return v
+    if isinstance(v, decimal.Decimal):
+        return 'D:' + str(v)
+    return 'R:' + repr(v)
+
+def cls(e):
+    for n in ('ParseError', 'CompilationError', 'ProgrammingError'):
+        if isinstance(e, getattr(beanquery, n)):
+            return n
+    return 'other:' + type(e).__name__
+
+for step in hist['steps']:
+    op = step[0]
+    pre = ['beanquery.query_env' in sys.modules]
+    try:
+        if op in ('exec', 'compile'):
+            c = conns[step[2] if len(step) > 2 else 'c']
+            try:
+                if op == 'exec':
+                    out.append(['rows', [[cell(v) for v in r] for r in c.execute(step[1]).fetchall()]] + pre)
+                else:
+                    c.compile(c.parse(step[1]))
+                    out.append(['compiled'] + pre)
+            except Exception as e:
+                out.append(['raised', cls(e), str(e)[:200]] + pre)
+            continue
+        if op == 'import_env':
+            import beanquery.query_env
+        elif op == 'attach':
+            conns[step[2] if len(step) > 2 else 'c'].attach('beancount:' + step[1])
+        elif op == 'connection':
+            conns[step[1]] = beanquery.Connection()
+        elif op == 'register':
+            from beanquery import query_env, query_compile
+            name, intypes, tag = step[1], step[2], step[3]
+            before = len(query_compile.FUNCTIONS[name])
+            query_env.function([TYPES[t] for t in intypes], str, name=name)(lambda *a, tag=tag: tag)
+            for f in query_compile.FUNCTIONS[name][before:]:
+                f.__verif_harness__ = True
+        else:
+            raise ValueError(op)
+        out.append(['done'] + pre)
+    except Exception as e:
+        out.append(['step-failed', type(e).__name__, str(e)[:200]] + pre)
+json.dump(out, sys.stdout)
+"""
+
+HIST_LEDGER = ('option "operating_currency" "USD"\n2020-01-01 open Assets:Cash\n2020-01-01 open Expenses:Food\n'
+               '2020-01-02 * "lunch"\n  Expenses:Food   3.00 USD\n  Assets:Cash\n')
+HIST_MRO = {'int': ['int'], 'str': ['str'], 'bool': ['bool', 'int'], 'Decimal': ['Decimal']}
+HIST_LIT = {'int': '2', 'str': "'ab'", 'bool': 'TRUE', 'Decimal': '1.5'}
+HIST_OVERLOADS = [['int'], ['str'], ['bool'], ['Decimal'], ['int', 'str'], ['str', 'int'], ['int', 'int'], []]
+HIST_CONTEXTS = [('SELECT {call} AS r FROM #', 'value'), ('SELECT {call} AS r FROM #', 'value'),
+                 ('SELECT r FROM (SELECT {call} AS r FROM #)', 'value'), ('SELECT 1 AS one FROM # WHERE {call} IS NOT NULL', 'one'),
+                 ('SELECT length({call}) >= 0 AS r FROM #', 'builtin-true')]
+
+
+def hist_ledger():
+    import os
+    d = os.path.join(core.BUILD, 'c05')
+    os.makedirs(d, exist_ok=True)
+    path = os.path.join(d, 'history.beancount')
+    core.write_if_changed(path, HIST_LEDGER)
+    return path
+
+
+def hist_resolve(registered, name, argtypes):
+    """The overload a call resolves to, given the registrations so far (in order): operand types most specific first."""
+    import itertools
+    for sig in itertools.product(*(HIST_MRO[t] for t in argtypes)):
+        for n, intypes, tag in registered:
+            if n == name and list(intypes) == list(sig):
+                return tag
+    return None
+
+
+def hist_expect(history):
+    """Per step: None (not a statement) | ['reject'] | ['rows', rows] | ['compiled'], from the property text alone."""
+    registered, env_loaded, out = [], False, []
+    for step in history['steps']:
+        op = step[0]
+        if op in ('import_env', 'attach', 'register'):
+            env_loaded = True
+            if op == 'register':
+                registered.append((step[1], step[2], step[3]))
+            out.append(None)
+        elif op in ('exec', 'compile'):
+            meta = history['calls'].get(step[1])
+            if meta is None:
+                out.append(None)
+                continue
+            if meta['kind'] == 'builtin':
+                ok = env_loaded
+                rows = meta['rows']
+            else:
+                tag = hist_resolve(registered, meta['name'], meta['argtypes'])
+                ok = tag is not None and (meta['context'] != 'builtin-true' or env_loaded)
+                rows = [[tag]] if meta['context'] == 'value' else [[1]] if meta['context'] == 'one' else [[True]]
+            out.append(['reject'] if not ok else ['compiled'] if op == 'compile' else ['rows', rows])
+        else:
+            out.append(None)
+    return out
+
+
+BUILTIN_CALLS = [("SELECT length('abc') AS r FROM #", [[3]]), ("SELECT upper('ab') AS r FROM #", [['AB']]),
+                 ("SELECT 1 AS one FROM # WHERE length('abc') = 3", [[1]]), ("SELECT abs(-2.5) AS r FROM #", [['D:2.5']]),
+                 ("SELECT year(2020-03-04) AS r FROM #", [[2020]]), ("SELECT r FROM (SELECT lower('AB') AS r FROM #)", [['ab']]),
+                 ("SELECT coalesce(substr('hello', 1, 3), 'x') AS r FROM #", [['el']])]
+
+
+def builtin_histories():
+    """A bare Connection() has no function registered: the built-ins arrive with beanquery.query_env, imported explicitly,
+    by attaching a Beancount source (on this or on ANOTHER connection), or by registering a plugin function."""
+    path = hist_ledger()
+    out = []
+    loads = [['import_env'], ['attach', path], ['register', 'vh_other', ['int'], 'vh_other/int'], ['connection', 'd']]
+    for k, load in enumerate(loads):
+        for order in ('before', 'after'):
+            texts = [BUILTIN_CALLS[(2 * k + j) % len(BUILTIN_CALLS)] for j in range(3)]
+            calls = {t: {'kind': 'builtin', 'rows': rows} for t, rows in texts}
+            first = [['exec' if j != 1 else 'compile', t] for j, (t, _) in enumerate(texts)]
+            second = [['exec', t] for t, _ in texts]
+            ld = [load] if load[0] != 'connection' else [['connection', 'd'], ['attach', path, 'd']]
+            steps = (first if order == 'after' else []) + ld + second
+            if load[0] == 'connection':      # and a connection created after the load
+                steps += [['connection', 'e'], ['exec', texts[0][0], 'e']]
+            out.append({'family': f'builtin:{load[0]}:{order}', 'steps': steps, 'calls': calls})
+    return out
+
+
+def gen_history(rng):
+    names = ['vh_f', 'vh_g']
+    calls = {}
+    pool = []
+    for _ in range(rng.randint(2, 4)):
+        name = rng.choice(names)
+        sig = rng.choice(HIST_OVERLOADS)
+        argtypes = [t if rng.random() < 0.8 else rng.choice(list(HIST_LIT)) for t in sig]
+        if 'int' in argtypes and rng.random() < 0.3:
+            argtypes[argtypes.index('int')] = 'bool'         # bool operand: served by an int overload until a bool one exists
+        tmpl, ctx = rng.choice(HIST_CONTEXTS)
+        text = tmpl.format(call=f'{name}({", ".join(HIST_LIT[t] for t in argtypes)})')
+        calls[text] = {'kind': 'plugin', 'name': name, 'argtypes': argtypes, 'context': ctx}
+        pool.append((text, name, argtypes))
+    steps = []
+    if rng.random() < 0.5:
+        steps.append(rng.choice([['import_env'], ['attach', hist_ledger()]]))
+    todo = []
+    for text, name, argtypes in pool:               # the overloads that would serve the calls, plus decoys
+        todo.append(['register', name, [rng.choice(HIST_MRO[t]) for t in argtypes], None])
+    for _ in range(rng.randint(0, 2)):
+        todo.append(['register', rng.choice(names), rng.choice(HIST_OVERLOADS), None])
+    rng.shuffle(todo)
+    n_exec = 0
+    while todo or n_exec < 3:
+        if todo and rng.random() < 0.4:
+            r = todo.pop()
+            r[3] = f'{r[1]}/{"+".join(r[2])}#{len(steps)}'
+            steps.append(r)
+        else:
+            text = rng.choice(pool)[0]
+            steps.append([rng.choice(['exec', 'exec', 'exec', 'compile']), text])
+            n_exec += 1
+        if len(steps) > 14:
+            break
+    for text, _, _ in pool:                          # every call once more at the end, whatever happened before
+        steps.append(['exec', text])
+    steps = [s for s in steps if s[0] != 'register' or s[3] is not None]
+    return {'family': 'plugin:random', 'steps': steps, 'calls': calls}
+
+
+def run_history(history):
+    import os
+    import subprocess
+    import sys
+    p = subprocess.run([sys.executable, '-c', HISTORY_CHILD], input=json.dumps(history), text=True,
+                       stdout=subprocess.PIPE, stderr=subprocess.PIPE, timeout=120,
+                       env=dict(os.environ, VERIF_REPO=core.REPO, PYTHONDONTWRITEBYTECODE='1'))
+    if p.returncode != 0:
+        return ['child-failed', p.stderr[-600:]]
+    return json.loads(p.stdout)
+
+
+def judge_history(history, observed):
+    """-> None | (step index, what was expected, what happened)"""
+    if observed and observed[0] == 'child-failed':
+        return (0, 'the history to run', observed)
+    expected = hist_expect(history)
+    for i, (e, o) in enumerate(zip(expected, observed)):
+        o = o[:-1]                                   # (the last item says whether query_env was imported before the step)
+        if o[0] == 'step-failed':
+            return (i, 'the step to run', o)
+        if e is None:
+            continue
+        if e[0] == 'reject':
+            if not (o[0] == 'raised' and o[1] == 'CompilationError'):
+                return (i, 'rejected with CompilationError (no overload registered for the operand types)', o)
+        elif e[0] == 'compiled':
+            if o[0] != 'compiled':
+                return (i, 'accepted (an overload for the operand types is registered)', o)
+        elif o[0] != 'rows' or o[1] != e[1]:
+            return (i, f'accepted, rows {e[1]} (an overload for the operand types is registered)', o)
+    if len(expected) != len(observed):
+        return (len(observed), 'one observation per step', observed[-1:])
+    return None
+
+
+def show_history(history, upto=None):
+    def one(s):
+        if s[0] == 'register':
+            return f'register {s[1]}({", ".join(s[2])})'
+        if s[0] == 'attach':
+            return 'attach ledger' + (f' on {s[2]}' if len(s) > 2 else '')
+        if s[0] in ('exec', 'compile'):
+            return f'{s[0]} {s[1]!r}' + (f' on {s[2]}' if len(s) > 2 else '')
+        return ' '.join(map(str, s))
+    steps = history['steps'] if upto is None else history['steps'][:upto + 1]
+    return 'fresh process: ' + ' ; '.join(one(s) for s in steps)
+
+
+def shrink_history(history, bad):
+    """Drop steps (never the failing one) while the last step keeps failing."""
+    cur = dict(history, steps=history['steps'][:bad[0] + 1])
+    i = 0
+    budget = 14
+    while i < len(cur['steps']) - 1 and budget > 0:
+        cand = dict(cur, steps=cur['steps'][:i] + cur['steps'][i + 1:])
+        budget -= 1
+        b = judge_history(cand, run_history(cand))
+        if b is not None and b[0] == len(cand['steps']) - 1:
+            cur = cand
+        else:
+            i += 1
+    return cur
+
+
+def run_histories(tier, rng):
+    from concurrent.futures import ThreadPoolExecutor
+    hs = builtin_histories() + [gen_history(rng) for _ in range(16 if tier == 'quick' else 150)]
+    with ThreadPoolExecutor(max_workers=min(8, core.NCPU)) as ex:
+        obs = list(ex.map(run_history, hs))
+    violations, seen = [], set()
+    hist = {'family': {}, 'statement_outcome': {}, 'rejected_then_accepted_calls': 0, 'steps': 0,
+            'statements_before_query_env_is_imported': 0}
+    for h, o in zip(hs, obs):
+        fam = h['family'].rsplit(':', 1)[0]
+        hist['family'][fam] = hist['family'].get(fam, 0) + 1
+        hist['steps'] += len(h['steps'])
+        exp = hist_expect(h)
+        rejected = set()
+        for s, e, r in zip(h['steps'], exp, o if o and o[0] != 'child-failed' else []):
+            if e is None:
+                continue
+            hist['statement_outcome'][e[0]] = hist['statement_outcome'].get(e[0], 0) + 1
+            if r[-1] is False:
+                hist['statements_before_query_env_is_imported'] += 1
+            if e[0] == 'reject':
+                rejected.add(s[1])
+            elif s[1] in rejected:
+                rejected.discard(s[1])
+                hist['rejected_then_accepted_calls'] += 1
+        bad = judge_history(h, o)
+        if bad is None:
+            continue
+        step = h['steps'][min(bad[0], len(h['steps']) - 1)]
+        earlier = step[0] in ('exec', 'compile') and any(
+            s[0] in ('exec', 'compile') and s[1] == step[1] for s in h['steps'][:bad[0]])
+        sig = (f'registry-history:{fam}:{"same-call-seen-before" if earlier else "first-use"}:'
+               f'{"reject" if "rejected" in bad[1] else "accept"}-expected')
+        if sig in seen:
+            continue
+        seen.add(sig)
+        if len(seen) <= 2 and o[0] != 'child-failed':
+            small = shrink_history(h, bad)
+            b2 = judge_history(small, run_history(small))
+            if b2 is not None:
+                h, bad = small, b2
+        violations.append(core.Violation(
+            'registry-history', f'{show_history(h, bad[0])}: the last statement should be {bad[1]}, observed {bad[2]}',
+            {'history': h, 'step': bad[0], 'expected': bad[1], 'observed': bad[2]}, signature=sig))
+    cov = {'registry_history_stream': dict(hist, histories=len(hs), samples=[show_history(h) for h in hs[:1] + hs[8:10]])}
+    return cov, violations
+
+
 def build_cases(tier, rng):
     e = env()
     g = Gen(rng, e['reg'])
@@ -1583,6 +1958,10 @@ def build_cases(tier, rng):
         text, params = rng.choice(base)
         t2, how = corrupt(rng, text)
         cases.append(dict(stream='corrupt', rule='corrupt:' + how, text=t2, params=params, expect='any'))
+    # fix-G: drawn from the same PRNG without moving the draws of the streams that follow (end-to-end)
+    saved_state = rng.getstate()
+    cases.extend(having_copy_mutants(g, rng, 120 if tier == 'quick' else 1500))
+    rng.setstate(saved_state)
     return cases
 
 
@@ -1681,7 +2060,11 @@ def run(tier, rng, use_model=True):
                 'subqueries, BALANCES/JOURNAL/PRINT, placeholders); stream mutant: one or more statements per rule of the property '
                 'text, ill-formed by construction; stream overload: every operator and function of the live registry x operand '
                 'type tuples from 17 probes (unary/binary exhaustive, others sampled); stream corrupt: token/byte corruptions of the '
-                'former and arbitrary token strings. distinct_nontrivial = distinct texts that parse',
+                'former and arbitrary token strings. distinct_nontrivial = distinct texts that parse. fix-G: stream having-copy '
+                '(valid GROUP BY statements whose HAVING repeats a non-aggregate expression the statement already evaluates: target, '
+                'grouping key by text/position/name/hidden, a bool expression over it, or one added as target+key), ill-formed by '
+                'construction; stream registry histories (fresh process per history: statements calling a function interleaved with '
+                'registrations, oracle = simulated registry)',
         'samples': [c['text'] for c in cases[:5]] + [c['text'] for c in cases if c['stream'] == 'corrupt'][:5],
         'histograms': hist, 'untranslatable_asts': untrans,
         'violation_counts': {sig: n for sig, (v, n) in seen.items()},
@@ -1708,8 +2091,19 @@ def run(tier, rng, use_model=True):
         'key_dtype_equals_target_dtype': count(str(c['sibling']['same_dtype']) for c in sib),
         'dtype': count(c['sibling']['dtype'] for c in sib), 'expected': count(c['expect'] for c in sib),
         'samples': [c['text'] for c in sib[:2]] + [c['text'] for c in sib if c['sibling']['kind'] == 'subquery'][:3]}
+    hc = [c for c in cases if c.get('having_copy')]
+    cov['having_copy_stream'] = {
+        'statements': len(hc), 'copy_of': count(c['having_copy']['of'] for c in hc), 'form': count(c['having_copy']['form'] for c in hc),
+        'rejected_by_implementation': sum(1 for c, r in zip(cases, recs) if c.get('having_copy') and r['phase'] == 'compile'),
+        'error_kind': count(str(r['kind']) for c, r in zip(cases, recs) if c.get('having_copy')),
+        'compared_with_model': sum(1 for c, m in zip(cases, models) if c.get('having_copy') and m is not None),
+        'samples': [c['text'] for c in hc[:4]]}
     ecov, eviol = run_e2e(tier, rng)
     cov.update(ecov)
+    hcov, hviol = run_histories(tier, rng)
+    cov.update(hcov)
+    cov['evaluations'] += hcov['registry_history_stream']['steps']
+    violations.extend(hviol)
     cov['evaluations'] += ecov['e2e_statements']
     cov['traces_validated_against_impl'] += ecov['e2e_compared']
     violations.extend(eviol)
@@ -1717,6 +2111,8 @@ def run(tier, rng, use_model=True):
 
 
 def replay(rec):
+    if 'history' in rec:
+        return judge_history(rec['history'], run_history(rec['history'])) is None
     case = rec['case']
     if rec.get('e2e'):
         r = observe_e2e(case)
